@@ -208,8 +208,8 @@ def meta(tier):
                       CombinatorialSpecification.to_jsonable, CombinatorialSpecification.from_dict, Rule.to_jsonable, Rule.from_dict,
                       VerificationRule.to_jsonable, VerificationRule.from_dict, EquivalenceRule.to_jsonable, EquivalenceRule.from_dict,
                       EquivalencePathRule.to_jsonable, EquivalencePathRule.from_dict, ReverseRule.to_jsonable, ReverseRule.from_dict],
-        "bounds": "(a) 10 strategy kinds x 16 setting combinations; (b) 17 packs; (c) every specification returned for 64 two-state tables x 3 "
-                  "databases x the option sets listed below (thorough: more option sets, draw tapes, 3-state tables); counts compared to n<=5",
+        "bounds": "(a) 10 strategy kinds x 16 setting combinations; (b) all %d packs of the option catalogue; (c) every specification returned for 64 two-state tables x 3 "
+                  "databases x the option sets listed below (thorough: more option sets, draw tapes, 3-state tables); counts compared to n<=5" % len(PACK_OPTS),
     })
     m["bounds"] = str(m.get("bounds", "")) + " || end-to-end groups of this run: " + e2e.describe_groups(groups(tier))
     return m
